@@ -96,7 +96,7 @@ Definition agrees1 (m : cresult) (c : ocall) : bool :=
     | CPanic, VPanic => true
     | _, _ => false
     end
-  else true.
+  else false.   (* the generator only emits the modelled fragment: a case outside it is a generator defect, reported loudly *)
 
 (* one pass against ITS OWN document: the typed decoding exists, is what was observed, and
    every declared constraint holds *)
